@@ -1,5 +1,6 @@
 """Per-property plans: which flow-A configurations are model-checked, which cases are executed,
 which judge reasons decide the property."""
+import itertools
 import gen
 import examples
 import vlib
@@ -985,6 +986,48 @@ def plan_fd(ctx):
         body, nv = gen.fd_collapse_program(rng)
         add(ctx, [{"id": "%s-col-%d" % (ctx["prop"], i), "kind": "program", "mode": "query",
                    "qvars": list(range(1, nv + 1)), "body": body, "after": 1}])
+    # products over factor domains that do not start at 0 / 1 (quotient bounds round differently there)
+    for i in range(T(ctx, 120, 2400)):
+        xl = rng.randint(1, 3); xh = rng.randint(xl + 1, 9)
+        yl = rng.randint(2, 3); yh = rng.randint(yl + 1, 5)
+        goals = [["dom", ["var", 1], ["itv", xl, xh]], ["dom", ["var", 2], ["itv", yl, yh]]]
+        if rng.random() < 0.5:
+            z = ["num", rng.choice([6, 8, 9, 10, 12, 15, 16, 18, 20])]
+            qv = [1, 2]
+        else:
+            zl = rng.randint(4, 12)
+            goals.append(["dom", ["var", 3], ["itv", zl, zl + rng.randint(0, 3)]])
+            z = ["var", 3]
+            qv = [1, 2, 3]
+        ops = [["var", 1], ["var", 2]]
+        if rng.random() < 0.3:
+            ops.reverse()
+        goals.append(["timesfd"] + ops + [z])
+        rng.shuffle(goals)
+        add(ctx, [{"id": "%s-tm-%d" % (ctx["prop"], i), "kind": "program", "mode": "query", "qvars": qv, "body": goals, "after": 1}])
+    # distinctfd over 3-4 elements whose values arrive in any order: posted before or after the domains, elements
+    # aliased, several elements bound by one unification, constants in the list
+    for i in range(T(ctx, 150, 3000)):
+        n = rng.randint(3, 4)
+        vs = list(range(1, n + 1))
+        lo, hi = 1, rng.randint(3, 4)
+        elems = [["var", v] for v in vs]
+        if rng.random() < 0.3:
+            elems.insert(rng.randint(0, n), ["num", rng.randint(lo, hi)])
+        goals = [["dom", ["list", [["var", v] for v in vs]], ["itv", lo, hi]], ["distinctfd", ["list", elems]]]
+        for _ in range(rng.randint(1, 2)):
+            r = rng.random()
+            if r < 0.35:
+                a, b = rng.sample(vs, 2)
+                goals.append(["eq", ["var", a], ["var", b]])
+            elif r < 0.7:
+                k = rng.randint(2, n)
+                sel = rng.sample(vs, k)
+                goals.append(["eq", ["list", [["var", v] for v in sel]], ["list", [["num", rng.randint(lo, hi)] for _ in sel]]])
+            else:
+                goals.append(["eq", ["var", rng.choice(vs)], ["num", rng.randint(lo, hi)]])
+        rng.shuffle(goals)
+        add(ctx, [{"id": "%s-dst-%d" % (ctx["prop"], i), "kind": "program", "mode": "query", "qvars": vs, "body": goals, "after": 1}])
     # the answer is a STRUCTURE over the domain variables (rows of a table, nested lists, compounds inside lists):
     # labelling has to reach every variable of it, each solution exactly once
     for i in range(T(ctx, 150, 3000)):
@@ -1165,9 +1208,24 @@ def plan_c04(ctx):
             if j == len(variants) - 1:
                 c["gcheck"] = "same_bag"
             add(ctx, [c])
+    # a disequality whose pairs SHARE a variable, the equalities that decide it, and a later choice for the shared
+    # variable: every order of the four goals
+    for i in range(T(ctx, 8, 120)):
+        x, y, z = ["var", 1], ["var", 2], ["var", 3]
+        a, b = rng.sample([1, 2, 3], 2)
+        wrapv = (lambda n: ["num", n]) if rng.random() < 0.6 else (lambda n: ["list", [["num", n]]])
+        goals = [["neq", ["list", [x, y]], rng.choice([["list", [z, z]], ["list", [z, z]], ["list", [z, ["list", [z]]]]])],
+                 ["eq", x, wrapv(a)], ["eq", y, wrapv(b)],
+                 ["conde", [[["eq", z, wrapv(a)]], [["eq", z, wrapv(b)]]]]]
+        g = "C04-sv%d" % i
+        orders = [list(p) for p in itertools.permutations(goals)]
+        for j, body in enumerate(orders):
+            c = query(ctx, "%s-p%d" % (g, j), 3, body, group=g, after=1)
+            if j == len(orders) - 1:
+                c["gcheck"] = "same_bag"
+            add(ctx, [c])
     # a value reaching a constrained variable through an alias, the domain arriving at any time:
     # every order of the four goals (a sample of the orders of the seven goals with two variables)
-    import itertools
     for i in range(T(ctx, 14, 250)):
         goals, nq, aliases = gen.fd_alias_program(rng)
         if len(goals) <= 4:
@@ -1470,6 +1528,8 @@ def plan_c13(ctx):
     rng = ctx["rng"]
     for i in range(T(ctx, 350, 3000)):
         add(ctx, [surface_engine(as_case(ctx, gen.match_program(rng, i)))])
+    for i in range(T(ctx, 40, 400)):
+        add(ctx, [surface_engine(as_case(ctx, gen.commit_fail_program(rng, i)))])
 
 
 def plan_c14(ctx):
@@ -1487,6 +1547,28 @@ def plan_c14(ctx):
             a["engine"] = True
             s["engine"] = True
         add(ctx, [a, s])
+    # committed choice with a literal `true` guard inside a bracketed arm, and `[true]` as the default arm
+    for i in range(T(ctx, 40, 400)):
+        op = rng.choice(["conda", "condu"])
+        g = lambda: rng.choice([["eq", ["var", 1], ["num", rng.randint(1, 2)]], ["neq", ["var", 1], ["num", 1]],
+                                ["eq", ["var", 2], ["num", 3]], ["fail"], ["eq", ["num", 1], ["num", 2]]])
+        arms = []
+        for _ in range(rng.randint(1, 2)):
+            arms.append(rng.choice([[["succeed"], g()], [["succeed"], g(), g()], [g(), g()], [g()]]))
+        arms.append(rng.choice([[["succeed"]], [["succeed"], g()], [g()]]))
+        pre = [["eq", ["var", 1], ["num", rng.randint(1, 2)]]] if rng.random() < 0.6 else []
+        c = {"id": "ct%d" % i, "kind": "program", "mode": "query", "qvars": [1, 2], "body": pre + [[op, arms]],
+             "after": 1, "budget": 400000, "bracket_literals": True}
+        gname = "%s-%s" % (ctx["prop"], c["id"])
+        a = as_case(ctx, c, "-api")
+        sf = as_case(ctx, c, "-surf")
+        a["group"] = gname
+        sf["group"] = gname
+        sf["backend"] = "surface"
+        sf["gcheck"] = "same_bag"
+        a["engine"] = True
+        sf["engine"] = True
+        add(ctx, [a, sf])
     # lterm!: the written term (ground terms and wildcards)
     for i in range(T(ctx, 120, 1000)):
         tg = gen.TermGen(rng, [], compounds=False, syms=True, nums=[0, 1, 2, 7])
